@@ -9,15 +9,15 @@
 (*          documentation (zero-value shorthands), and what a /Filter +       *)
 (*          /DecodeParms pair of a stream dictionary means (7.3.8.2).         *)
 (*  Impl... transcriptions of filter.go: validate*, toDict/Info, parse*,      *)
-(*          FilterCompress resolution, appendFilter.                          *)
+(*          FilterCompress resolution, insertFilter.                          *)
 (*                                                                            *)
 (* Properties (checked exhaustively by MC_FilterParams, bound to the real     *)
 (* code by Gen_FilterParams / Trace_FilterParams):                            *)
 (*   the dictionary emitted by Info means the struct's effective parameters;  *)
 (*   MakeFilter of that dictionary yields a struct with the same meaning,     *)
 (*   equal to ImplNormalize; Info o MakeFilter is idempotent; after any       *)
-(*   sequence of Appends the i-th /DecodeParms entry belongs to the i-th      *)
-(*   /Filter entry.                                                           *)
+(*   sequence of insertions (OpenStream's filters, in front of the caller's   *)
+(*   chain) the i-th /DecodeParms entry belongs to the i-th /Filter entry.    *)
 (*                                                                            *)
 (* PDF values are typed records [t |-> "int"|"bool"|"name"|"real"|"string"|   *)
 (* "array"|"dict"|"null", v |-> ...] so that type-confused dictionaries       *)
@@ -25,7 +25,7 @@
 (* stand-ins Big31 and Big63 represent 2^31 and 2^63-1; the harness maps      *)
 (* them to the real values.  Every threshold in filter.go lies below both,    *)
 (* and the map is monotone, so every comparison has the same outcome.         *)
-EXTENDS Integers, Sequences, FiniteSets, TLC
+EXTENDS Integers, Sequences, FiniteSets, TLC, SequencesExt
 
 MaxDim == 1048576                      \* 1 << 20
 Big31  == 2000000001                   \* stands for 2^31
@@ -253,22 +253,25 @@ RefChain(sd) ==
     [] sd.F.t = "array" -> [i \in 1..Len(sd.F.v) |->
                               <<sd.F.v[i].v, IF sd.P.t = "array" THEN PDict(sd.P.v[i]) ELSE Empty>>]
 
-\* appendFilter (filter.go); parms is a dictionary (Empty for nil)
+\* insertFilter (filter.go); parms is a dictionary (Empty for nil), pos is the
+\* 0-based position in the chain.  Writer.OpenStream inserts its i-th filter
+\* at position base + i (base = 1 behind a leading /Crypt entry of the
+\* caller's dictionary, else 0): the filters given to OpenStream come IN FRONT
+\* of a chain the caller's dictionary already names, because they encode the
+\* bytes the caller writes (which the caller's own chain describes).
 DLen(x) == IF x.t = "dict" THEN Cardinality(DOMAIN x.v) ELSE 0
 AsParm(parms) == IF parms = Empty THEN Null ELSE Dv(parms)
-ImplAppend(sd, name, parms) ==
-  CASE sd.F.t = "name" ->
-         [F |-> Av(<<sd.F, Nm(name)>>),
-          P |-> IF DLen(sd.P) + Cardinality(DOMAIN parms) > 0
-                THEN Av(<<(IF sd.P.t = "dict" THEN sd.P ELSE Null), AsParm(parms)>>)
-                ELSE sd.P]
-    [] sd.F.t = "array" ->
-         LET n == Len(sd.F.v)
-             pp == IF sd.P.t = "array" THEN sd.P.v ELSE <<>>
-             needs == parms # Empty \/ \E i \in 1..Len(pp) : DLen(pp[i]) > 0
-             padded == [i \in 1..n |-> IF i <= Len(pp) THEN pp[i] ELSE Null]   \* pad, then pp[:len(filter)]
-         IN [F |-> Av(Append(sd.F.v, Nm(name))),
-             P |-> IF needs THEN Av(Append(padded, AsParm(parms))) ELSE sd.P]
-    [] OTHER ->
-         [F |-> Nm(name), P |-> IF parms # Empty THEN Dv(parms) ELSE sd.P]
+ImplInsert(sd, pos, name, parms) ==
+  LET names == CASE sd.F.t = "name" -> <<sd.F>> [] sd.F.t = "array" -> sd.F.v [] OTHER -> <<>>
+      n == Len(names)
+      pp == [i \in 1..n |->
+               IF sd.P.t = "dict" THEN (IF i = 1 THEN sd.P ELSE Null)
+               ELSE IF sd.P.t = "array" /\ i <= Len(sd.P.v) THEN sd.P.v[i] ELSE Null]
+      at == (IF pos < n THEN pos ELSE n) + 1
+      names2 == InsertAt(names, at, Nm(name))
+      pp2 == InsertAt(pp, at, AsParm(parms))
+      needs == \E i \in 1..Len(pp2) : DLen(pp2[i]) > 0
+  IN IF Len(names2) = 1
+     THEN [F |-> names2[1], P |-> IF needs THEN Dv(parms) ELSE None]
+     ELSE [F |-> Av(names2), P |-> IF needs THEN Av(pp2) ELSE None]
 =============================================================================
